@@ -491,10 +491,10 @@ HIST_DIMS_QUICK = ["mut", "tcbAlter", "qeAlter", "qsig", "bind", "qeSigner", "le
 
 def _hist_cfg(tier, dims=None):
     if dims is None and tier == "thorough":
-        return ('CONSTANTS\n  K = 0\n  Focus = {}\n  OptSet = "levels"\n  NowVals = {"set"}\n  HistDims <- DimNames\n  HistQuick = FALSE\n'
+        return ('CONSTANTS\n  K = 0\n  Focus = {}\n  OptSet = "levels"\n  NowVals = {"set"}\n  HistDims <- DimNames\n  HistQuick = FALSE\n  HistPairs <- HistPairsRot\n'
                 "SPECIFICATION HSpec\nINVARIANTS StoreIsCurrent HistoryFree ExportCase\nCHECK_DEADLOCK FALSE\n")
     dims = "{" + ", ".join('"%s"' % d for d in (dims or HIST_DIMS_QUICK)) + "}"
-    return ('CONSTANTS\n  K = 0\n  Focus = {}\n  OptSet = "levels"\n  NowVals = {"set"}\n  HistDims = %s\n  HistQuick = %s\n'
+    return ('CONSTANTS\n  K = 0\n  Focus = {}\n  OptSet = "levels"\n  NowVals = {"set"}\n  HistDims = %s\n  HistQuick = %s\n  HistPairs <- HistPairsRot\n'
             "SPECIFICATION HSpec\nINVARIANTS StoreIsCurrent HistoryFree ExportCase\nCHECK_DEADLOCK FALSE\n" % (dims, "FALSE" if tier == "thorough" else "TRUE"))
 
 
@@ -508,7 +508,7 @@ def _key_hist(call, evs):
     dev = ",".join("%s=%s" % (d, f[d]) for d in sorted(f) if b.get(d) != f[d]) or "baseline"
     if i.get("timed"):
         return "history:wall-clock-time-set-reused-after-expiry%s|shared=%s" % ("-first-call-fails-fetching" if i.get("firstFails") else "", int(bool(i.get("shared"))))
-    steps = (">levels>" if i.get("mid") == "levels" else ">").join("%s@%d%d%s" % (s["wid"], int(s["gc"]), int(s["cr"]), "r" if s.get("entry") == "raw" else "") for s in i.get("hist", []))
+    steps = {"levels": ">levels>", "addRoot": ">addRoot>"}.get(i.get("mid"), ">").join("%s@%d%d%s" % (s["wid"], int(s["gc"]), int(s["cr"]), "r" if s.get("entry") == "raw" else "") for s in i.get("hist", []))
     return "history:%s|%s|shared=%s" % (dev, steps, int(bool(i.get("shared"))))
 
 
@@ -519,7 +519,7 @@ def _hist_quick(cases):
     for c in cases:
         a, b = c["hist"]
         if a.get("entry", "msg") == "msg" and b.get("entry", "msg") == "msg":
-            if c.get("mid", "none") == "none" or b["cr"]:
+            if c.get("mid", "none") in ("none", "addRoot") or b["cr"]:
                 out.append(c)
         elif c.get("mid", "none") == "none" and a["gc"] == b["gc"] and a["cr"] == b["cr"]:
             out.append(c)
